@@ -49,6 +49,9 @@ def make_ops(rng, cfg, profile, tier):
             ops.append({'op': 'REBUILD', 'a': [rng.choice([1, 7, 90267]), rng.choice([2, 4, 6]), rng.randrange(0, 50)]})
         else:
             ops.append({'op': 'RESERVED', 'a': [rng.randrange(len(NATIVE))]})
+    for _ in range(rng.randrange(0, 3)):
+        ops.insert(rng.randrange(len(ops) + 1),
+                   {'op': rng.choice(['INTEGRATE', 'DERIVE']), 'a': [rng.randrange(4), rng.randrange(3), rng.random() < 0.5]})
     return ops
 
 
@@ -71,6 +74,22 @@ def simplifications(spec):
 def nontrivial(spec, res):
     c = res.get('counters', {})
     return len(spec['config']['vars']) >= 2 and c.get('mc_values_checked', 0) >= 2
+
+
+class RvEnv(ref.Env):
+    def __init__(self, row, betas, omega):
+        super().__init__(row, betas)
+        self.omega = omega
+
+
+class RvBuilder(ref.Builder):
+    def build(self, n):
+        if n[0] == 'rv':
+            import biogeme.expressions as ex
+            if 'rv' not in self.refs:
+                self.refs['rv'] = ex.RandomVariable(n[1])
+            return self.refs['rv']
+        return super().build(n)
 
 
 class Session:
@@ -296,6 +315,60 @@ class Session:
                 ctx.fail('I10.seed', f'two constructions with seed {seed} give likelihoods {l1!r} and {l2!r}')
             ctx.probe('reconstruction with the same non-zero seed')
             ctx.log(kind, seed, R, fhex(l1))
+        elif kind == 'INTEGRATE':
+            # numerical integration over the real line of a smooth, normally decaying integrand (sampled:
+            # two integrand families; reference = adaptive quadrature on [-14, 14])
+            from scipy.integrate import quad
+            k, fam, inside_mc = a
+            betas = self.betas_at(k)
+            om = ['rv', 'omega']
+            phi = ['/', ['exp', ['neg', ['/', ['*', om, om], ['num', 2.0]]]], ['num', math.sqrt(2 * math.pi)]]
+            if fam == 0:
+                u = ['+', ['+', ['beta', 'b0'], ['*', ['beta', 's'], om]], ['*', ['beta', 'b1'], ['var', 'x0']]]
+                g = ['*', ['/', ['exp', u], ['+', ['num', 1.0], ['exp', u]]], phi]
+            elif fam == 1:
+                q = ['-', om, ['*', ['beta', 'b1'], ['var', 'x1']]]
+                g = ['*', ['exp', ['neg', ['*', q, q]]], ['+', ['num', 2.0], ['cos', ['*', ['beta', 'b0'], om]]]]
+            else:
+                g = ['*', ['*', ['+', ['num', 1.0], ['*', ['*', ['beta', 's'], om], ['*', ['beta', 's'], om]]], phi],
+                     ['+', ['num', 1.0], ['*', ['num', 0.1], ['var', 'x0']]]]
+            b = RvBuilder({k_: (v, None, None, 0) for k_, v in BETAS.items()}, share_elementary=True)
+            e = ex.Integrate(b.build(g), 'omega')
+            got = e.get_value_c(database=self.db, betas=betas, aggregation=False, prepare_ids=True)
+            for i_, row in enumerate(self.rows):
+                f = lambda o, row=row: ref.ev(g, RvEnv(row, betas, o))
+                want = quad(f, -14.0, 14.0, epsabs=1e-13, epsrel=1e-12, limit=200)[0]
+                if not ref.close(float(got[i_]), want, 1e-7, 1e-10):
+                    ctx.fail('I10.integral', f'Integrate (family {fam}) on row {i_}: {float(got[i_])!r}, the integral over the '
+                                             f'real line is {want!r}')
+            ctx.count('integrals_checked')
+            ctx.log(kind, k, fam)
+        elif kind == 'DERIVE':
+            k, fam, wrt_var = a
+            betas = self.betas_at(k)
+            h = [['+', ['exp', ['*', ['beta', 'b0'], ['var', 'x0']]], ['*', ['beta', 'b1'], ['*', ['beta', 'b0'], ['beta', 'b0']]]],
+                 ['*', ['sin', ['*', ['beta', 'b0'], ['var', 'x1']]], ['+', ['var', 'x0'], ['beta', 's']]],
+                 ['/', ['beta', 'b0'], ['+', ['num', 1.0], ['*', ['var', 'x0'], ['var', 'x0']]]]][fam]
+            name_ = 'x0' if wrt_var else 'b0'
+            b = RvBuilder({k_: (v, None, None, 0) for k_, v in BETAS.items()}, share_elementary=True)
+            e = ex.Derive(b.build(h), name_)
+            got = e.get_value_c(database=self.db, betas=betas, aggregation=False, prepare_ids=True)
+            for i_, row in enumerate(self.rows):
+                step = 1e-5
+
+                def val(delta, row=row):
+                    r2, b2 = dict(row), dict(betas)
+                    if wrt_var:
+                        r2['x0'] += delta
+                    else:
+                        b2['b0'] += delta
+                    return ref.ev(h, ref.Env(r2, b2))
+                want = (val(step) - val(-step)) / (2 * step)
+                if not ref.close(float(got[i_]), want, 1e-6, 1e-8):
+                    ctx.fail('I10.derive', f'Derive(., {name_}) (family {fam}) on row {i_}: {float(got[i_])!r}, the partial '
+                                           f'derivative is {want!r}')
+            ctx.count('derivatives_checked')
+            ctx.log(kind, k, fam, name_)
         elif kind == 'RESERVED':
             t = NATIVE[a[0]]
             try:
